@@ -55,6 +55,8 @@ ApplyEdit(m, e) ==
     [] e.op = "remove_index" -> [m EXCEPT !.tables[e.t].idxs = RemoveAt(@, e.x)]
     [] e.op = "dup_index"    -> [m EXCEPT !.tables[e.t].idxs = Append(@, @[e.x])]      \* a second index equal to index x
     [] e.op = "add_enum_item" -> [m EXCEPT !.enums[e.e].items = Append(@, e.item)]
+    \* an item renamed in place, then an item added under the name that has just become free (two steps, one edit kind)
+    [] e.op = "rename_item_add_old" -> [m EXCEPT !.enums[e.e].items = Append([@ EXCEPT ![e.k].name = e.v], [name |-> e.old, note |-> "", comment |-> ""])]
     \* additions and removals of top-level elements (the quantifier of C10: "attribute edits and element additions/removals")
     [] e.op = "add_table"    -> [m EXCEPT !.tables = Append(@, e.table)]
     [] e.op = "delete_table" -> DropTable(m, e.t)
@@ -72,7 +74,7 @@ ApplyEdit(m, e) ==
 \* (flag edits are listed several times: the layout of PRIMARY KEY clauses depends on how many pk columns a table has)
 EditOps == <<"table_name", "table_schema", "table_alias", "table_note", "col_name", "col_type", "col_flag", "col_flag", "col_flag", "col_default",
              "col_note", "enum_name", "ref_type", "ref_inline", "ref_name", "ref_actions", "add_column", "add_index",
-             "remove_index", "remove_index", "dup_index", "add_enum_item",
+             "remove_index", "remove_index", "dup_index", "add_enum_item", "rename_item_add_old",
              "add_table", "delete_table", "add_ref", "add_ref", "delete_ref", "add_enum", "delete_enum", "add_group", "delete_group", "add_sticky",
              "set_project", "delete_project">>
 
@@ -125,6 +127,11 @@ ChooseEdit(sd, i, m) ==
     [] op = "dup_index"    -> IF m.tables[t].idxs = <<>> THEN skip ELSE [op |-> op, t |-> t, x |-> Num(sd, K(50 + i, 0, 5), 1, Len(m.tables[t].idxs))]
     [] op = "add_enum_item" -> IF m.enums = <<>> THEN skip
                                ELSE [op |-> op, e |-> Num(sd, K(50 + i, 0, 5), 1, Len(m.enums)), item |-> [name |-> fresh, note |-> "", comment |-> ""]]
+    [] op = "rename_item_add_old" ->
+         IF m.enums = <<>> THEN skip
+         ELSE LET en == Num(sd, K(50 + i, 0, 5), 1, Len(m.enums))
+                  k == Num(sd, K(50 + i, 0, 6), 1, Len(m.enums[en].items)) IN
+              [op |-> op, e |-> en, k |-> k, v |-> fresh, old |-> m.enums[en].items[k].name]
     [] op = "add_table"    -> [op |-> op, table |-> [schema |-> Pick(sd, K(50 + i, 0, 5), <<"public", "public", "s1">>), name |-> fresh, alias |-> "",
                                                      color |-> "", note |-> Pick(sd, K(50 + i, 0, 6), NewTexts), props |-> <<>>, comment |-> "",
                                                      cols |-> <<[name |-> "id", type |-> [k |-> "str", v |-> "int"], pk |-> TRUE, unique |-> FALSE,
